@@ -63,6 +63,9 @@ func (p SliceLossIndication) Marshal() ([]byte, error) {
 
 // Unmarshal decodes the SliceLossIndication from binary
 func (p *SliceLossIndication) Unmarshal(rawPacket []byte) error {
+	// Clear any existing entries
+	p.SLI = nil
+
 	if len(rawPacket) < (headerLength + ssrcLength) {
 		return errPacketTooShort
 	}
